@@ -189,7 +189,7 @@ func famPeers(w *World) {
 	for op := 0; op < nops; op++ {
 		li := scn(2)
 		s := servers[scn(len(servers))]
-		switch k := scn(12); k {
+		switch k := scn(13); k {
 		case 0, 1, 2:
 			lists[li].Add(s.HostPort)
 			model[li][s.HostPort] = true
@@ -265,6 +265,28 @@ func famPeers(w *World) {
 			settle()
 			checkList(0, "Add racing with a connection to "+s.HostPort)
 			checkList(1, "Add racing with a connection to "+s.HostPort)
+		case 10: // several goroutines Add the same host:port at once (and one may select meanwhile)
+			na := 2 + scn(2)
+			var fs []func()
+			for i := 0; i < na; i++ {
+				fs = append(fs, func() { lists[li].Add(s.HostPort) })
+			}
+			if scnChance(1, 2) {
+				fs = append(fs, func() { lists[li].Get(nil) })
+			}
+			w.tasks(fs...)
+			model[li][s.HostPort] = true
+			w.probe("C15.concurrent-adds-of-one-peer")
+			checkList(li, fmt.Sprintf("%d concurrent Adds of %s", na, s.HostPort))
+			if scnChance(1, 2) {
+				// ... and it can be removed again, completely
+				if err := lists[li].Remove(s.HostPort); err != nil {
+					w.violate("C15", "remove", "Remove(%s) after concurrent Adds on list %d returned %v", s.HostPort, li, err)
+				}
+				delete(model[li], s.HostPort)
+				checkList(li, "Remove "+s.HostPort+" after concurrent Adds")
+				selectOne(li, false, nil, fmt.Sprintf("list %d Get after Remove", li))
+			}
 		default: // selection
 			prev := map[string]struct{}{}
 			for _, hp := range sortedKeys(model[li]) {
